@@ -126,7 +126,12 @@ WideRefW(kind, c, iv, iw, ow, WW) ==
 
 WideRef(kind, c, iv, iw, ow) == WideRefW(kind, c, iv, iw, ow, MaxSeq(iw \o ow) + 2)
 
+WideRefA(kind, c, iv, iw, ow) ==
+    IF "alias" \in DOMAIN c
+    THEN WideRef(kind, c, [k \in 1..Len(c.alias) |-> iv[c.alias[k]]], [k \in 1..Len(c.alias) |-> iw[c.alias[k]]], ow)
+    ELSE WideRef(kind, c, iv, iw, ow)
+
 \* the integer reference r (Library!CombRef, DC = -1) as limb vectors, for the comparison of the two references
 AsWide(r, ow) == [k \in 1..Len(r) |-> IF r[k] = -1 THEN WDC ELSE FromInt(r[k], ow[k])]
-WideOfInts(kind, c, iv, iw, ow) == WideRef(kind, c, [k \in 1..Len(iv) |-> FromInt(iv[k], iw[k])], iw, ow)
+WideOfInts(kind, c, iv, iw, ow) == WideRefA(kind, c, [k \in 1..Len(iv) |-> FromInt(iv[k], iw[k])], iw, ow)
 =============================================================================
